@@ -579,13 +579,13 @@ def digest_sibling_rule(ctx):
     R.rule("C06-D6 digest table sibling", 5, "DigestGenerator and SuitHash agree on primitive and output length per algorithm")
     dg = repo.cls(ENC, "DigestGenerator")
     sh = repo.cls("suit_generator.suit.security", "SuitHash")
-    t1 = ev.term(dg.attrs["_hash_func"], dg.module)
-    t2 = ev.term(sh.attrs["_hash_func"], sh.module)
+    t1, n1 = generic.hash_table_of(ctx, dg, "generate_digest_size_for_plain_text")
+    t2, _n2 = generic.hash_table_of(ctx, sh, "hash")
     d1 = {k.v: repr(v) for k, v in (dict_pairs(t1) or []) if isinstance(k, Const)}
     d2 = {k.v: repr(v) for k, v in (dict_pairs(t2) or []) if isinstance(k, Const)}
     if len(d1) < 5 or len(d2) < 5:
         raise AnalysisError("hash tables not foldable")
     for name, prim in sorted(d1.items()):
         sib = d2.get("cose-alg-" + name)
-        R.check("C06-D6 digest table sibling", sib == prim, f"{name}", mod=dg.module, node=dg.attr_nodes["_hash_func"], function=dg.fq,
+        R.check("C06-D6 digest table sibling", sib == prim, f"{name}", mod=dg.module, node=n1, function=dg.fq,
                 expected=f"same primitive as SuitHash['cose-alg-{name}'] = {sib}", found=prim, key_extra=name)
